@@ -620,6 +620,9 @@ func (P *Program) describeAssumption(a string) string {
 	if strings.HasPrefix(a, "A-STD-PURE:") {
 		return "A-STD-PURE: standard-library function " + strings.TrimPrefix(a, "A-STD-PURE:") + " is effect-free on library state (no pointer/map/channel/function argument): arbitrary result"
 	}
+	if strings.HasPrefix(a, "ABSTRACTED:") {
+		return "abstracted (over-approximation, not an assumption): " + strings.TrimPrefix(a, "ABSTRACTED:")
+	}
 	if strings.HasPrefix(a, "DEVIRTUALISED:") {
 		return "note (not an assumption): an interface call was additionally tied to the real body of " + strings.TrimPrefix(a, "DEVIRTUALISED:") + ", inlined from the current source"
 	}
